@@ -18,7 +18,7 @@ def main():
     assert os.path.realpath(sharepoint2text.__file__).startswith(os.path.realpath(spec["repo"]) + os.sep), sharepoint2text.__file__
     junk = [object() for _ in range(spec.get("junk", 0))]
     junk2 = [bytearray(64) for _ in range(spec.get("junk", 0) // 8)]
-    corpus.warm_all(extract=False)
+    # no up-front imports: extractor modules load lazily, in the order this configuration uses them
     clock = clockseam.install(spec["clock"]["base"], spec["clock"]["step"])
     from sharepoint2text.parsing.router import get_extractor
     out = {}
